@@ -126,7 +126,12 @@ impl Check for C10 {
         o.raw_pct = *rng.pick(&[0u64, 10]);
         // mostly small payloads (what matters is the structure); one history in twelve has a few large ones (4 KiB to
         // beyond the 64 KiB that buffers tend to be sized at), in a document small enough to decode at every instant
-        if rng.chance(1, 12) {
+        if rng.chance(1, 400) {
+            // ... and now and then one of a megabyte or two, in a tiny document
+            o.pay.max_len = 2_100_000;
+            o.pay.boundary_pct = 60;
+            o.max_nodes = o.max_nodes.min(4);
+        } else if rng.chance(1, 12) {
             o.pay.max_len = 70_000;
             o.pay.boundary_pct = 40;
             o.max_nodes = o.max_nodes.min(10);
